@@ -28,6 +28,9 @@ type namedValue struct {
 	v    interface{}
 }
 
+// c14Null: values that are JSON null on the wire: not values; the API must refuse them (error, no panic).
+var c14Null = map[string]bool{"nil-slice": true, "nil-map": true}
+
 type tagged struct {
 	A int    `json:"a"`
 	B string `json:"b"`
@@ -226,6 +229,12 @@ func c14Run(kind string, nv *namedValue) (v *pt.Violation, digest string, produc
 	}()
 	if perr != nil {
 		return viol(sig("api-panics"), "%s with value %s (%T) panicked: %v", kind, vname, val, perr), "", 0
+	}
+	if nv != nil && c14Null[nv.name] && kind != "doc.put-nested" {
+		if apiErr == nil {
+			return viol(sig("null-value-accepted"), "%s accepted %s (%T), which is JSON null on the wire", kind, vname, val), "", 0
+		}
+		return nil, "refused-null", 0
 	}
 	if apiErr != nil {
 		return viol(sig("api-refuses-json-value"), "%s with JSON-representable value %s (%T) returned %v", kind, vname, val, apiErr), "", 0
